@@ -259,15 +259,15 @@ open RsslVerif.Gen.SlotCompile RsslVerif.Model.SlotsCompile RsslVerif.Lemmas.Slo
     checker every declarator of a global-variable declaration starts from a FRESH language binding (nothing but the
     attribute result, the base type and the storage class is computed before the loop over the declarators; the binding
     the annotations write is the `lang_slot` of the global `insert_global` has just pushed with
-    `LanguageBinding::default()`), the annotation loop, the attribute overrides after it, the whole attribute loop
+    `LanguageBinding::default()`; no file but globals.rs assigns a language binding), the annotation loop, the attribute overrides after it, the whole attribute loop
     (`parse_attributes_for_global`, `parse_expr_as_u32`), the storage-class loop of `parse_globaltype` and the cbuffer
     path have the statement sequence `Model.SlotsFront` mirrors; the exporters read that bound module and list
     bound root definitions in order, grouped by set
-    (39 comparisons with the comment-stripped, whitespace-normalised current source). -/
+    (40 comparisons with the comment-stripped, whitespace-normalised current source). -/
 theorem compile_shape_as_modelled :
     compileShape = ⟨true, true, true, true, true, true, true, true, true, true, true, true, true, true, true, true,
                     true, true, true, true, true, true, true, true, true, true, true, true, true, true, true, true,
-                    true, true, true, true, true, true, true⟩ := by decide
+                    true, true, true, true, true, true, true, true⟩ := by decide
 
 /-- **Per-pipeline default group.**  For every module the type checker can hand to `compile()` (any declaration
     sequence, any list of pipelines) and every argument set: the call returns one result per requested pipeline
